@@ -8,6 +8,7 @@ package props
 import (
 	"encoding/json"
 	"fmt"
+	"sync"
 	"testing"
 
 	"github.com/Trendyol/go-dcp/config"
@@ -355,5 +356,66 @@ func init() {
 			return "bad scenario: " + err.Error()
 		}
 		return c09ExecDiscovery(c)
+	})
+}
+
+// ---------- the partition of a leader-numbered group (kubernetesHa): numbering + partition rule together ----------
+
+type c09Group struct {
+	N int       `json:"n"`
+	G c10Leader `json:"group"`
+}
+
+func c09ExecGroup(g c09Group) string {
+	_, part := c10ExecLeaderGroup(g.G, g.N)
+	return part
+}
+
+// TestC09_LeaderGroup: the members of a leader-numbered group (real service discovery on the leader and on every
+// follower, real kubernetesHa membership and vBucket discovery per member; only the RPC link is a fake that can fail)
+// must together own every vBucket exactly once at the end of generated histories of ping failures, failed assignment
+// RPCs and restarted followers.
+func TestC09_LeaderGroup(t *testing.T) {
+	n := scale(96, 2400)
+	_, nsh := shard()
+	var gs []c09Group
+	rapid.Check(t, func(rt *rapid.T) {
+		if len(gs) > 0 {
+			return
+		}
+		for i := 0; i < (n+nsh-1)/nsh; i++ {
+			gs = append(gs, c09Group{N: rapid.SampledFrom([]int{64, 128, 1024}).Draw(rt, "n"), G: c10GenLeader(rt)})
+		}
+	})
+	out := make([]string, len(gs))
+	var wg sync.WaitGroup
+	for i := range gs {
+		wg.Add(1)
+		go func(i int) { defer wg.Done(); out[i] = c09ExecGroup(gs[i]) }(i) // sleep-dominated (5 s monitor rounds): all cases run concurrently
+	}
+	wg.Wait()
+	for i, d := range out {
+		if d != "" {
+			violation(t, "C09", "c09group", gs[i], "%s", d)
+		}
+		fault := false
+		for _, f := range gs[i].G.Followers {
+			fault = fault || len(f.RpcFail) > 0 || f.Restart > 0 || f.PingFail > 0
+		}
+		labs := []string{"leader_groups"}
+		if fault {
+			labs = append(labs, "leader_group_with_fault")
+		}
+		record("C09", gs[i], len(gs[i].G.Followers) >= 2 && fault, labs...)
+	}
+}
+
+func init() {
+	registerReplay("c09group", func(raw json.RawMessage) string {
+		var g c09Group
+		if err := json.Unmarshal(raw, &g); err != nil {
+			return "bad scenario: " + err.Error()
+		}
+		return c09ExecGroup(g)
 	})
 }
